@@ -10,8 +10,9 @@ Check(e) ==
       fmt == OutFormat(c)
       exp1 == IF fmt = "fasta" THEN NoQual(e.ref1) ELSE e.ref1
       exp2 == IF fmt = "fasta" THEN NoQual(e.ref2) ELSE e.ref2
-  IN /\ Rep(e.id, "RunSucceeds", e.exit = 0)
-     /\ e.exit = 0 =>
+  IN /\ IF MustRefuse(c) THEN Rep(e.id, "FastqNameWithoutQualitiesRefusedIdentically", e.exit # 0)
+                         ELSE Rep(e.id, "RunSucceeds", e.exit = 0)
+     /\ (e.exit = 0 /\ ~MustRefuse(c)) =>
         /\ Rep(e.id, "OutFormatByNameThenFlagThenInput", \A i \in 1..Len(e.formats) : e.formats[i] \in {fmt, "empty"})
         /\ c.redirect # "none" => Rep(e.id, "EveryOutputFileHasTheFormatOfItsOwnName", e.redirect_format \in {RedirectFormat(c), "empty"})
         /\ Rep(e.id, IF c.infmt = "fasta" THEN "FastaEqualsFastqNamesAndSeqs" ELSE "RecordsIndependentOfContainerAndLayout",
